@@ -4,7 +4,7 @@ from __future__ import annotations
 
 import ast
 
-from ..absint import App, Cfg, ClassV, Const, DictV, ExcV, ListV, Sym
+from ..absint import App, Cfg, ClassV, Const, DictV, ExcV, ListV, ObjV, Sym
 from ..flow import FlowInterp, FlowPolicy, exits, run_flow
 from ..repo import AnalysisError, body_walk, call_name, norm, short
 
@@ -178,6 +178,9 @@ def run(ctx):
                   msg=f"{uid} strips {list(t)} from the caller's keyword parameters; the sibling implementations and hass.services.async_call accept only {list(ref)}: "
                   f"a service parameter named {sorted(set(t) - set(ref))} is not delivered to the service", key=f"split-off options {t}", node=program.func(uid), rel=uid.split("::")[0])
 
+    ctx.rule("R12.6", "outgoing calls: an option is split off only when it has the option's type; any other parameter - including one merely named like an option - reaches the service", floor=150)
+    split_table(ctx, program, "R12.6")
+
     ctx.rule("R12.5", "both subsystems reject the built-in service names", floor=2)
     for uid in ("eval.py::EvalFunc.trigger_init", "decorators/service.py::ServiceDecorator.validate"):
         f = program.func(uid)
@@ -191,3 +194,71 @@ def run(ctx):
         "recording of names, start/stop symmetry); handler contract; sibling agreement of the three parameter-splitting implementations. "
         "Not decided: registration state after arbitrary histories."
     )
+
+
+SPLIT_IMPLS = {
+    "function.py::Function.service_call": ("Function", {}, {"domain": "d", "name": "s"}),
+    "function.py::Function.get.service_call_factory.service_call": ("Function", {"domain": "d", "service": "s"}, {}),
+    "state.py::State.get.service_call_factory.service_call": ("State", {"domain": "d", "service": "s", "entity_id": "d.e", "params": ()}, {}),
+}
+
+
+def split_table(ctx, program, rid):
+    """The three parameter-splitting implementations interpreted on every small keyword dictionary."""
+    from ..absint import ClassV, ListV as _L
+    ctxobj = ObjV("userctx", "Context")
+    taskctx = ObjV("taskctx", "Context")
+    opts = {"context": (None, ctxobj, Const("kitchen")), "blocking": (None, Const(True), Const("soon")), "return_response": (None, Const(False), Const("maybe"))}
+    good = {"context": ctxobj, "blocking": Const(True), "return_response": Const(False)}
+    for uid, (owner, closure, fixed) in SPLIT_IMPLS.items():
+        fn = program.func(uid)
+        for has_task_ctx in (True, False):
+            for cv in opts["context"]:
+                for bv in opts["blocking"]:
+                    for rv in opts["return_response"]:
+                        given = {k: v for k, v in (("context", cv), ("blocking", bv), ("return_response", rv)) if v is not None}
+                        kw = DictV([(Const(k), v) for k, v in given.items()] + [(Const("level"), Const(3))])
+                        calls = []
+
+                        def ha(i, n, a, k, c, o):
+                            calls.append((a, dict(k)))
+                            return [(c, Sym(("resp",)))]
+
+                        glob = {"Context": ClassV("Context"), "cls": ClassV(owner), "Function": ClassV("Function")}
+                        glob.update({k: (Const(v) if not isinstance(v, tuple) else _L((), "tuple")) for k, v in closure.items()})
+                        pol = FlowPolicy(program, may_raise_all=False, cancel=False, globals_=glob,
+                                         summaries={"cls.hass_services_async_call": ha, "cls.hass.services.async_call": ha, "Function.hass_services_async_call": ha,
+                                                    "asyncio.current_task": lambda i, n, a, k, c, o: [(c, Const("T"))]})
+                        heap = {"Function.task2context": DictV([(Const("T"), taskctx)] if has_task_ctx else [])}
+                        args = {"kwargs": kw, "args": _L((), "tuple")}
+                        args.update({k: Const(v) for k, v in fixed.items()})
+                        if owner == "Function" and not closure:
+                            args["cls"] = ClassV("Function")
+                        out = run_flow(program, uid, pol, args=args, heap=heap)
+                        want_opts, want_data = {}, {"level": Const(3)}
+                        for k, v in given.items():
+                            if v == good[k]:
+                                want_opts[k] = v
+                            else:
+                                want_data[k] = v
+                        if "context" not in want_opts and has_task_ctx:
+                            want_opts["context"] = taskctx
+                        if "entity_id" in closure:
+                            want_data["entity_id"] = Const("d.e")
+                        label = f"context={'absent' if cv is None else cv!r}, blocking={'absent' if bv is None else bv!r}, return_response={'absent' if rv is None else rv!r}, " \
+                                f"task context {'known' if has_task_ctx else 'unknown'}"
+                        bad = None
+                        ex = exits(out)
+                        if len(calls) != len(ex) or not calls:
+                            bad = f"{len(calls)} Home Assistant call(s) on {len(ex)} path(s)"
+                        for a, k in calls:
+                            data = a[2] if len(a) > 2 else None
+                            got_data = dict(data.items) if isinstance(data, DictV) else None
+                            got_data = {kk.v: vv for kk, vv in got_data.items()} if got_data is not None else None
+                            if got_data != want_data:
+                                lost = sorted(set(want_data) - set(got_data or {}))
+                                bad = f"service data is {got_data}, expected {want_data}" + (f": parameter(s) {lost} never reach the service" if lost else "")
+                            elif k != want_opts:
+                                bad = f"call options are {k}, expected {want_opts}"
+                        ctx.check(bad is None, rid, uid, f"{uid.split('::')[1].split('.')[0]}.{'get' if closure else 'service_call'}: {label}",
+                                  msg=f"{uid} called with {label}: {bad}", key=f"split {label}", node=fn, rel=uid.split("::")[0])
